@@ -16,7 +16,7 @@ CHECKS = {
          'Lean 4 invariant proofs (induction over operation lists, strong induction on the fuel of the mutual recursion, contracts for _set_timer) + differential correspondence'),
  'C02': ('proof', 'Theorems for every reachable state: only RUNNING jobs are queued, each at most once; a job that is not RUNNING (cancelled, paused, stopped, finished, never created) is neither executed nor queued by any sequence of operations that does not contain its own resume/reset/creation; while the scheduler is disabled no operation but enable(True) executes anything; a control operation on one job leaves every other queued job queued for the same instant (or executed it because it was already due); refused creations change nothing and failed creations leave the job unqueued; in every history in which the clock does not go back the run times a job was executed for are strictly increasing (at most one execution per announced run time) and below the run time it reports. Oracle on the real trace: at most one execution per announced run time, none while paused/cancelled/disabled.', '8 C02', SCHED_NOTE,
          'Lean 4 invariant + generic "quiet step" proofs + differential correspondence'),
- 'C07': ('proof', 'Theorems: RUNNING <-> run time set in every reachable state; every control operation on a FINISHED job raises and leaves the state unchanged; the whole record of a job that is not RUNNING is unchanged by any number of operations that do not address it (wake-ups, sleeps, other jobs); JobCallbackHandler.run invokes every registered callback exactly once in order with the new state visible; set_next_run reports the new state to the on_update callbacks. Store exactness is decided by the correspondence (callback log, store content).', '8 C07', SCHED_NOTE,
+ 'C07': ('proof', 'Theorems: RUNNING <-> run time set in every reachable state; every control operation on a FINISHED job raises and leaves the state unchanged; the whole record of a job that is not RUNNING is unchanged by any number of operations that do not address it (wake-ups, sleeps, other jobs); JobCallbackHandler.run invokes every registered callback exactly once in order with the new state visible; set_next_run reports the new state to the on_update callbacks; the job store is exact in every reachable state (an entry (id, job) exists exactly when the job was filed under that id and has not finished, ids unique, finished jobs in no store). Correspondence incl. callback log and store content.', '8 C07', SCHED_NOTE,
          'Lean 4 invariant + frame proofs + trace lemma on callbacks + differential correspondence'),
  'C08': ('proof', 'Theorems for every reachable state: once(t) for a future t succeeds, reports t, and a sleep past t executes the job at exactly t; reset() of a countdown job reports now + countdown and a sleep past it executes the job at exactly that instant; a fired countdown is paused with no run time; a one-shot job finishes with its execution; a job that is not RUNNING is never executed without its own reset/resume (C02) and its record is frozen (C07). Histories with interleaved resets/stops are decided by the correspondence plus a three-line reference model of the countdown evaluated on the real trace.', '8 C08', SCHED_NOTE,
          'Lean 4 proofs over reachable states + differential correspondence + reference-model oracle'),
